@@ -78,6 +78,15 @@ _SX_PARSE = {}
 SX_LONG = {}  # digest -> abbreviated definition text
 
 
+def _strip_sx(item):
+    """Items produced by an iteration do not stand for the expression that built the container's elements."""
+    if item is None:
+        return item
+    if item.elts is not None and any(e is not None and e.sx is not None for e in item.elts):
+        item = item.w(elts=[e.w(sx=None) if e is not None and e.sx is not None else e for e in item.elts])
+    return item.w(sx=None) if item.sx is not None else item
+
+
 def _running_min(s):
     """`if x < best: best = x` (or `best > x`): (name of best, node of x) else None."""
     if s.orelse or len(s.body) != 1 or not isinstance(s.body[0], ast.Assign) or len(s.body[0].targets) != 1:
@@ -719,7 +728,7 @@ class Interp:
         skip = st.copy()  # zero iterations
         for i in range(6):
             body_st = head.copy()
-            item = self.model.iter_item(self, body_st, it, s.iter, s)
+            item = _strip_sx(self.model.iter_item(self, body_st, it, s.iter, s))
             self.assign(s.target, item, frame, body_st, s)
             end = self.exec_block(s.body, frame, body_st)
             ctx = frame.loops[-1]
@@ -1202,7 +1211,7 @@ class Interp:
         maybe_empty = False
         for g in n.generators:
             it = self.eval(g.iter, frame, cst)
-            item = self.model.iter_item(self, cst, it, g.iter, g)
+            item = _strip_sx(self.model.iter_item(self, cst, it, g.iter, g))
             self.assign(g.target, item, frame, cst)
             for c in g.ifs:
                 self.eval(c, frame, cst)
